@@ -95,8 +95,11 @@ FUNC_TYPES = (ast.FunctionDef, ast.AsyncFunctionDef)
 
 
 class Tree:
-    def __init__(self, root: Optional[Path] = None):
+    def __init__(self, root: Optional[Path] = None, overrides: Optional[Dict[str, str]] = None):
+        """overrides: {path relative to the repository root: source text} replaces files in memory
+        (used by the mutation self-test; the files on disk are not touched)"""
         self.root = Path(root) if root else repo_root()
+        overrides = overrides or {}
         self.pkg = self.root / "src" / "experimaestro"
         if not self.pkg.is_dir():
             raise AnchorMissing(f"package directory {self.pkg} not found")
@@ -113,7 +116,7 @@ class Tree:
             name = ".".join(relparts) if relparts else "__init__"
             rel = str(path.relative_to(self.root))
             try:
-                src = path.read_text(encoding="utf-8")
+                src = overrides[rel] if rel in overrides else path.read_text(encoding="utf-8")
                 m = Module(name, path, rel, src)
             except SyntaxError as e:  # a tree that does not compile is not analysable
                 self.parse_errors.append(f"{rel}: {e}")
